@@ -279,6 +279,78 @@ Proof.
 Qed.
 Print Assumptions c10_model_views_independent.
 
+(* ============================== Part C: dates, tags, and where the merchants come from ============ *)
+
+(* by(): the groups partition the payments (every payment in exactly one group), none is empty *)
+Theorem c10_by_partition :
+  forall (c : ctx) (f : field),
+    exists groups : list (list value),
+      get_by c f = VList (map VList groups) /\
+      Permutation (concat groups) (map pay_val (c_txns c)) /\
+      Forall (fun g => g <> []) groups.
+Proof. exact by_partition. Qed.
+Print Assumptions c10_by_partition.
+
+(* by("week") ('%Y-W%W'): two valid dates share a group iff same calendar year and same Monday-based week *)
+Theorem c10_week_key_spec :
+  forall p1 p2 : payment,
+    valid_md (p_month p1) (p_day p1) -> valid_md (p_month p2) (p_day p2) ->
+    (key_of FWeek p1 = key_of FWeek p2 <->
+     p_year p1 = p_year p2 /\
+     monday_of (ordinal (p_year p1) (p_month p1) (p_day p1)) = monday_of (ordinal (p_year p2) (p_month p2) (p_day p2))).
+Proof. exact week_key_spec. Qed.
+Print Assumptions c10_week_key_spec.
+
+(* New Year's week: 2025-12-30 and 2025-01-03 are different groups (ISO week 1 both), 2025-12-29..31 one group,
+   29 Feb 2024 is its own day *)
+Example c10_week_examples :
+  let P y m d := {| p_year := y; p_month := m; p_day := d; p_amount := 1 |} in
+  (key_of FWeek (P 2025 12 30) =? key_of FWeek (P 2025 1 3))%Z = false /\
+  (key_of FWeek (P 2025 12 29) =? key_of FWeek (P 2025 12 31))%Z = true /\
+  (key_of FWeek (P 2026 1 1) =? key_of FWeek (P 2025 12 31))%Z = false /\
+  (key_of FDay (P 2024 2 29) - key_of FDay (P 2024 2 15) =? 14)%Z = true /\
+  (key_of FDay (P 2024 3 1) - key_of FDay (P 2024 2 29) =? 1)%Z = true.
+Proof. vm_compute. repeat split; reflexivity. Qed.
+
+(* `"x" in tags`: true iff some tag of the merchant equals x after lower-casing both *)
+Theorem c10_tag_membership :
+  forall (c : ctx) (a : string), c_txns c <> [] ->
+    exists b, py_in (VStr a) (get_tags c) = Val b /\
+              (b = true <-> exists t, In t (c_tags c) /\ lower t = lower a).
+Proof. exact tag_membership. Qed.
+Print Assumptions c10_tag_membership.
+
+(* by_merchant (analyze_transactions): the merchants are the distinct names; a merchant's payments and tags
+   are exactly those of ITS OWN transactions, in order *)
+Theorem c10_by_merchant_spec :
+  forall txns : list txn,
+    NoDup (map m_name (by_merchant txns)) /\
+    (forall n, In n (map m_name (by_merchant txns)) <-> exists t, In t txns /\ t_merchant t = n) /\
+    (forall m, In m (by_merchant txns) ->
+       m_payments m = map eff (filter (of_merchant (m_name m)) txns) /\
+       m_tags m = flat_map t_tags (filter (of_merchant (m_name m)) txns)).
+Proof. exact by_merchant_spec. Qed.
+Print Assumptions c10_by_merchant_spec.
+
+(* a merchant is kept out of every view iff one of its own transactions is tagged income / transfer /
+   investment, in any letter case *)
+Theorem c10_excluded_spec :
+  forall (txns : list txn) (m : merchant), In m (by_merchant txns) ->
+    (excluded m = true <->
+     exists t tag, In t txns /\ t_merchant t = m_name m /\ In tag (t_tags t) /\
+                   (lower tag = "income" \/ lower tag = "transfer" \/ lower tag = "investment")%string).
+Proof. exact by_merchant_excluded. Qed.
+Print Assumptions c10_excluded_spec.
+
+Example c10_by_merchant_example :
+  let T n tg y m d a := {| t_merchant := n; t_category := "Food"; t_subcategory := ""; t_tags := tg;
+                           t_pay := {| p_year := y; p_month := m; p_day := d; p_amount := a |} |} in
+  map (fun m => (m_name m, map p_amount (m_payments m), excluded m))
+      (by_merchant [T "A" [] 2025%Z 1%Z 3%Z 10; T "B" ["x"] 2025%Z 1%Z 4%Z (-5); T "A" ["food"] 2025%Z 2%Z 1%Z 20;
+                    T "B" ["INCOME"] 2025%Z 2%Z 2%Z (-7)])
+  = [("A", [10; 20], false); ("B", [-5; 7], true)]%string.
+Proof. vm_compute. reflexivity. Qed.
+
 (* ============================== non-vacuity ================================================= *)
 Definition ex_ms : list merchant :=
   [ {| m_name := "Acme"; m_category := "Food"; m_subcategory := "Grocery"; m_tags := ["Food"%string];
